@@ -29,6 +29,10 @@ impl Rng {
 }
 
 pub struct Ctx {
+    /// upper bound on the lengths `rand_len` chooses (operations whose model evaluation is quadratic in the length)
+    pub max_len: std::cell::Cell<usize>,
+    /// indices (in emission order) of cases that must not be executed, see `emit`
+    pub skip: Vec<u64>,
     /// lengths far beyond the usual range (thousands of bits) for the cheap operations: set by the
     /// generators whose model evaluation is linear or quadratic in the number of words only
     pub allow_huge: std::cell::Cell<bool>,
@@ -41,8 +45,13 @@ pub struct Ctx {
 
 impl Ctx {
     pub fn emit(&self, c: Case) -> Res {
-        let r = exec(&c);
-        writeln!(self.out.borrow_mut(), "{} > {}", enc_case(&c, self.profile), enc_res(&r)).unwrap();
+        // a case listed in `skip` killed the process in an earlier attempt (an abort cannot be caught): it is not
+        // executed again, its outcome is recorded as the panic class
+        let r = if self.skip.contains(&self.n.get()) { Res::Panic } else { exec(&c) };
+        let mut out = self.out.borrow_mut();
+        writeln!(out, "{} > {}", enc_case(&c, self.profile), enc_res(&r)).unwrap();
+        // every line reaches the file before the next case runs, so that the number of lines identifies a fatal case
+        out.flush().unwrap();
         self.n.set(self.n.get() + 1);
         r
     }
@@ -125,11 +134,12 @@ pub fn rand_len(ctx: &mut Ctx, kid: u8) -> usize {
     if !kind_is_fixed(kid) && ctx.allow_huge.get() && ctx.rng.chance(1, if ctx.thorough { 12 } else { 40 }) {
         return ctx.rng.pick(&[4160usize, 4224, 6400, 8192, 8256, 8320, 12800]) + ctx.rng.below(3) as usize - 1;
     }
-    let b = boundary_lens(kid, ctx.thorough);
+    let mut b = boundary_lens(kid, ctx.thorough);
+    b.retain(|l| *l <= ctx.max_len.get());
     if ctx.rng.chance(3, 4) {
         ctx.rng.pick(&b)
     } else if kind_is_fixed(kid) {
-        ctx.rng.below(kind_cap(kid) as u64 + 1) as usize
+        ctx.rng.below(kind_cap(kid).min(ctx.max_len.get()) as u64 + 1) as usize
     } else {
         let m = ctx.scale(700, 1100);
         ctx.rng.below(m) as usize
@@ -366,6 +376,7 @@ fn alias_cases(ctx: &mut Ctx, ops: &[u32], per_kind: u64) {
 }
 
 fn gen_c01(ctx: &mut Ctx) {
+    wide_native_on_short(ctx, &[66, 67, 68]);
     ctx.allow_huge.set(true);
     let na = ctx.scale(12, 120);
     alias_cases(ctx, &[66, 67, 68], na);
@@ -508,9 +519,26 @@ fn high_word_pairs(ctx: &mut Ctx) {
 }
 
 fn gen_c02(ctx: &mut Ctx) {
+    ctx.max_len.set(1100);
     let na = ctx.scale(8, 80);
     alias_cases(ctx, &[69, 70], na);
     division_lattice(ctx);
+    // zero and empty dividends against zero and empty divisors: every form of /, % and div_rem must panic
+    for ka in 0..NKINDS {
+        for kb in 0..NKINDS {
+            if !(ka == kb || ka >= KD && ka <= KA || kb >= KD && kb <= KA || ctx.rng.chance(1, 6)) {
+                continue;
+            }
+            for la in [0usize, 8.min(kind_cap_or(ka, 8)), 130.min(kind_cap_or(ka, 130))] {
+                for lb in [0usize, 8.min(kind_cap_or(kb, 8)), 130.min(kind_cap_or(kb, 130))] {
+                    let a = make_val(ka, la, &[0], ctx.rng.below(2) as usize, ctx.rng.chance(1, 2));
+                    let b = make_val(kb, lb, &[0], ctx.rng.below(2) as usize, ctx.rng.chance(1, 2));
+                    ctx.emit(Case::new(71).val(a.clone()).val(b.clone()));
+                    ctx.emit(Case::new(69 + ctx.rng.below(2) as u32).form(ctx.rng.below(6) as u32).val(a).val(b));
+                }
+            }
+        }
+    }
     let pp = ctx.scale(10, 80);
     for ka in 0..NKINDS {
         for kb in 0..NKINDS {
@@ -543,7 +571,33 @@ fn gen_c02(ctx: &mut Ctx) {
     small_scope_binops(ctx, &[69, 70, 71], ml, &REP_KINDS);
 }
 
+/// wide native operands (u64 / u128 / usize with high bits set) on short vectors that own more storage than they
+/// use: every bitwise and arithmetic operator, all six forms
+fn wide_native_on_short(ctx: &mut Ctx, ops: &[u32]) {
+    for ka in [KD, KA, 9, 11, 20] {
+        for len in [0usize, 1, 8, 40, 63, 64, 65, 100, 127, 128] {
+            if len > kind_cap_or(ka, 100000) {
+                continue;
+            }
+            for spare in [1usize, 3] {
+                let limbs = rand_limbs(ctx, len);
+                let a = make_val(ka, len, &limbs, spare, true);
+                for (t, x) in [(128u128, u128::MAX), (128, 1u128 << 64), (128, (1u128 << 64) | 5), (128, 1u128 << 127), (64, u64::MAX as u128), (64, 1u128 << 63), (65, 1u128 << 40)] {
+                    let op = ctx.rng.pick(ops);
+                    if (op == 69 || op == 70) && x == 0 {
+                        continue;
+                    }
+                    for form in 0..6 {
+                        ctx.emit(Case::new(op).form(form).arg(tb(t)).arg(x).arg(us(t)).val(a.clone()));
+                    }
+                }
+            }
+        }
+    }
+}
+
 fn gen_c04(ctx: &mut Ctx) {
+    wide_native_on_short(ctx, &[63, 64, 65]);
     ctx.allow_huge.set(true);
     let na = ctx.scale(8, 80);
     alias_cases(ctx, &[63, 64, 65], na);
@@ -936,7 +990,21 @@ fn iter_case(ctx: &mut Ctx, a: &Val) -> Case {
         calls.push(code);
         calls.push(arg);
     }
-    Case::new(30).form(ctx.rng.below(2) as u32).val(a.clone()).list(calls)
+    // every third sequence ends in a run of next (or next_back) calls long enough to exhaust the iterator; the harness
+    // issues that run through fold / for_each / collect / rfold / ... (argument 0 selects which)
+    let mut consumer = 0u128;
+    if ctx.rng.chance(1, 3) && a.len <= 600 {
+        while let Some(&code) = calls.get(calls.len().wrapping_sub(2)) {
+            if code >= 5 { calls.truncate(calls.len() - 2); } else { break; }
+        }
+        let code = ctx.rng.below(2) as u128;
+        for _ in 0..(rem as usize + 1 + ctx.rng.below(2) as usize) {
+            calls.push(code);
+            calls.push(0);
+        }
+        consumer = 1 + ctx.rng.below(5) as u128;
+    }
+    Case::new(30).form(ctx.rng.below(2) as u32).arg(consumer).val(a.clone()).list(calls)
 }
 
 /// zeros / ones / repeat / with_capacity of every kind at boundary lengths (within capacity)
@@ -952,14 +1020,84 @@ fn ctor_cases(ctx: &mut Ctx) {
     }
 }
 
+/// clone_from / clone_into onto a destination with its own history (longer, all ones, spare capacity), then observers
+/// and one more operation on the result
+fn clone_from_cases(ctx: &mut Ctx) {
+    let n = ctx.scale(12, 120);
+    for k in 0..NKINDS {
+        for _ in 0..n {
+            let dst = if ctx.rng.chance(1, 2) {
+                let len = rand_len(ctx, k);
+                make_val(k, len, &vec![u64::MAX; (len + 63) / 64], ctx.rng.below(3) as usize, ctx.rng.chance(1, 2))
+            } else {
+                rand_val(ctx, k)
+            };
+            let src = if ctx.rng.chance(1, 2) {
+                let len = ctx.rng.below(dst.len as u64 + 1) as usize;
+                make_val(k, len, &vec![0; (len + 63) / 64], ctx.rng.below(2) as usize, ctx.rng.chance(1, 2))
+            } else {
+                rand_val(ctx, k)
+            };
+            let r = ctx.emit(Case::new(14).form(ctx.rng.below(2) as u32).val(dst).val(src));
+            if let Some(v) = first_vec(&r) {
+                observer_battery(ctx, &v, 1);
+                let c = edit_case(ctx, &v);
+                ctx.emit(c);
+                ctx.emit(Case::new(43).arg((v.len + 70).min(kind_cap_or(k, 100000)) as u128).arg(0).val(v));
+            }
+        }
+    }
+}
+
 fn gen_c03(ctx: &mut Ctx) {
+    clone_from_cases(ctx);
     ctor_cases(ctx);
     let all: Vec<u8> = (0..NKINDS).collect();
     let n = ctx.scale(1500, 30000);
     histories(ctx, n, 12, true, &all);
 }
 
+/// insert / append / prepend with the relations in-place implementations care about: index + infix length a multiple of
+/// 64, infix a whole number of words, index on a word boundary, spare storage for at least the infix, non-periodic tail
+fn insert_alignment_cases(ctx: &mut Ctx) {
+    for ka in [KD, KA, 9, 17, 20] {
+        let cap = kind_cap_or(ka, 100000);
+        for &len in &[70usize, 100, 128, 192, 256, 300] {
+            for &idx in &[0usize, 1, 20, 63, 64, 65, 128] {
+                for &n in &[1usize, 44, 63, 64, 65, 108, 128, 192] {
+                    if idx > len || len + n > cap {
+                        continue;
+                    }
+                    let interesting = (idx + n) % 64 == 0 || n % 64 == 0 || idx % 64 == 0;
+                    if !interesting && !ctx.rng.chance(1, 4) {
+                        continue;
+                    }
+                    let limbs: Vec<u64> = (0..(len + 63) / 64).map(|i| 0x0123_4567_89ab_cdefu64.rotate_left(i as u32 * 7) ^ ctx.rng.next()).collect();
+                    let a = make_val(ka, len, &limbs, (n + 63) / 64 + ctx.rng.below(2) as usize, true);
+                    let kb = ctx.rng.pick(&[KD, KA, 9, 8]);
+                    if n > kind_cap_or(kb, 100000) {
+                        continue;
+                    }
+                    let x = match ctx.rng.below(3) {
+                        0 => make_val(kb, n, &vec![0; (n + 63) / 64], 0, false),
+                        1 => make_val(kb, n, &vec![u64::MAX; (n + 63) / 64], 0, false),
+                        _ => { let l = rand_limbs(ctx, n); make_val(kb, n, &l, ctx.rng.below(2) as usize, ctx.rng.chance(1, 2)) }
+                    };
+                    ctx.emit(Case::new(48).arg(idx as u128).val(a.clone()).val(x.clone()));
+                    if idx == 0 {
+                        ctx.emit(Case::new(47).val(a.clone()).val(x.clone()));
+                    }
+                    if idx == len {
+                        ctx.emit(Case::new(46).val(a.clone()).val(x));
+                    }
+                }
+            }
+        }
+    }
+}
+
 fn gen_c07(ctx: &mut Ctx) {
+    insert_alignment_cases(ctx);
     let all: Vec<u8> = (0..NKINDS).collect();
     let n = ctx.scale(2000, 40000);
     histories(ctx, n, 10, false, &all);
@@ -1601,6 +1739,7 @@ fn gen_c19(ctx: &mut Ctx) {
 }
 
 fn gen_c20(ctx: &mut Ctx) {
+    wide_native_on_short(ctx, &[63, 64, 65, 66, 67, 68, 69, 70]);
     wide_shift_amounts(ctx);
     let na = ctx.scale(6, 60);
     alias_cases(ctx, &[63, 64, 65, 66, 67, 68, 69, 70], na);
